@@ -114,19 +114,27 @@ fn check_v2(acc: &mut Acc, input: &[u8], h: &v2::Header) {
 
 /// The loop of examples/server.rs: append what the read returned, re-parse, stop when complete.
 /// Returns the number of bytes buffered when it stopped and whether the result was a success.
-fn receive(reads: &[&[u8]]) -> (usize, bool, u64) {
+fn receive(reads: &[&[u8]], last_extra: &[u8]) -> (usize, bool, u64, usize) {
     let mut buffer: Vec<u8> = Vec::new();
     let mut parses = 0;
-    for r in reads {
+    for (i, r) in reads.iter().enumerate() {
         buffer.extend_from_slice(r);
+        if i + 1 == reads.len() {
+            buffer.extend_from_slice(last_extra); // the final read may bring application data with it
+        }
         parses += 1;
         let res = HeaderResult::parse(&buffer);
         if res.is_complete() {
+            let hlen = match &res {
+                HeaderResult::V1(Ok(h)) => h.header.len(),
+                HeaderResult::V2(Ok(h)) => h.len(),
+                _ => 0,
+            };
             let ok = matches!(res, HeaderResult::V1(Ok(_)) | HeaderResult::V2(Ok(_)));
-            return (buffer.len(), ok, parses);
+            return (buffer.len(), ok, parses, hlen);
         }
     }
-    (buffer.len(), false, parses)
+    (buffer.len(), false, parses, 0)
 }
 
 fn receiver_splits(acc: &mut Acc, hdr: &[u8], all_compositions: bool) {
@@ -148,18 +156,19 @@ fn receiver_splits(acc: &mut Acc, hdr: &[u8], all_compositions: bool) {
             last = c;
         }
         reads.push(&hdr[last..]);
-        let res = guard(|| receive(&reads));
-        if let Ok((stopped, ok, parses)) = res {
-            transitions += parses;
-            acc.eval(parses);
-            if stopped != n || !ok {
-                acc.violation_on(
-                    "receiver-stops-early-or-fails",
-                    "receiver loop over HeaderResult::parse",
-                    hdr[..stopped].to_vec(),
-                    format!("stops after all {} bytes with the one-shot header (reads cut at {:?})", n, cuts),
-                    format!("stopped after {} bytes, success={}", stopped, ok),
-                );
+        for extra in [&b""[..], &b"\r\nGET"[..]] {
+            if let Ok((stopped, ok, parses, hlen)) = guard(|| receive(&reads, extra)) {
+                transitions += parses;
+                acc.eval(parses);
+                if stopped != n + extra.len() || !ok || hlen != n {
+                    acc.violation_on(
+                        "receiver-stops-early-or-fails",
+                        "receiver loop over HeaderResult::parse",
+                        hdr[..stopped.min(n)].to_vec(),
+                        format!("stops after the read that completes the {} header bytes, with the one-shot header (reads cut at {:?}, {} bytes of payload in the last read)", n, cuts, extra.len()),
+                        format!("stopped with {} bytes buffered, success={}, header length {}", stopped, ok, hlen),
+                    );
+                }
             }
         }
     };
@@ -222,7 +231,7 @@ pub fn judge(input: &[u8], acc: &mut Acc) {
 }
 
 pub fn run(run: &Run) {
-    let b = v1_bounds(run.tier);
+    let b = v1_bounds_derived(run.tier);
     explore_all(run, &v1_universes(&b));
     run.explore(&u2::CtlUniverse);
     run.explore(&u2::LenUniverse { presents: u2::Presents::AcceptedStride(run.tier.pick(127, 13)), name: "U2-len/accepted-stride" });
